@@ -4,3 +4,4 @@ pub mod real;
 pub mod regen;
 pub mod rng;
 pub mod astser;
+pub mod classgen;
